@@ -15,8 +15,8 @@ META = {
             "or Io with a cause: failed dial, closed connection, failed negotiation); after everything the environment was asked "
             "has been answered no open_stream is left waiting.",
     "note": "Extension component (not in properties.jsonl). The driver emulates Swarm::dial's PeerCondition check and delivers "
-            "ConnectionEstablished / ConnectionClosed atomically with handler creation / drop; connections denied by another "
-            "behaviour after the handler was built are not driven.",
+            "ConnectionEstablished / ConnectionClosed atomically with handler creation / drop. Shared::sender picks a random "
+            "connection (rand::rng()), so a replayed schedule may take another path when a peer has two connections.",
     "design_ref": "ext/X01",
 }
 
@@ -39,7 +39,7 @@ def run(c):
     else:
         t = c.rundir / "xs.ndjson"
         t2 = c.rundir / "xs_rand.ndjson"
-        c.drive(drv, ["exhaustive", c.pick(3, 4), t])
+        c.drive(drv, ["exhaustive", c.pick(3, 5), t])
         c.drive(drv, ["random", c.seed, c.pick(200, 3000), t2])
         with open(t, "a") as f:
             f.write(open(t2).read())
@@ -59,9 +59,9 @@ def run(c):
     return c.finish(
         "model_checking",
         rule="schedule = ops over accept/dropinc/recv(p), open(peer,p)/cancel, pollbeh, dialok/dialfail(peer,kind), inconn/close, "
-             "pollh(c), outok/outfail(c,kind), inb / inb1+inb2 (c,p) with 2 remote peers and protocols /a /b (+ never registered "
+             "dialdeny/indeny(peer) (denied after the handler was built), pollh(c), outok/outfail(c,kind), inb / inb1+inb2 (c,p) with 2 remote peers and protocols /a /b (+ never registered "
              "/c); all sequences up to length N over a 14-letter alphabet without impossible steps, plus seeded random schedules "
-             "of length 6..45; every run ends with a drain and the `end` check; distinct = distinct schedules with an "
+             "of length 6..45 (3 of 4 generated online among the steps possible in the current state); every run ends with a drain and the `end` check; distinct = distinct schedules with an "
              "open_stream or an inbound stream",
         assumptions=["the driver plays the Swarm: it applies the Dial's PeerCondition like Swarm::dial, answers substream "
                      "requests in FIFO order per connection, and polls all unresolved open_stream futures after every step",
